@@ -400,13 +400,36 @@ func TestP2Fractions(t *testing.T) {
 
 type pathCase struct {
 	Cmds []type1.GlyphOp `json:"cmds"`
+	// WidthY: vertical advance of the glyph (non-zero: written with sbw)
+	WidthY float64 `json:"width_y,omitempty"`
+	// Others: the font has further glyphs, sorting before and after this one,
+	// whose outlines end far from the origin (position tracking is per glyph)
+	Others bool `json:"others,omitempty"`
 }
 
 const driftTol = 1.0/214 + 2e-6
 
 func checkPath(c *pathCase) string {
 	f := newFont()
-	f.Glyphs["p"] = &type1.Glyph{WidthX: 100, Cmds: c.Cmds}
+	// (small Go maps are iterated in a rotation of their insertion order: the
+	// glyph under test is inserted between the others, so that it is met
+	// right after a glyph with an outline)
+	other := func(i int, name string) {
+		g := &type1.Glyph{WidthX: 300, WidthY: float64(i%2) * 40}
+		g.MoveTo(float64(100*i)+0.25, 7)
+		g.LineTo(float64(700+i)+0.5, float64(-300*i)-0.125)
+		g.CurveTo(1, 2, 3, 4, float64(900+i), float64(650-i)+0.75)
+		f.Glyphs[name] = g
+	}
+	if c.Others {
+		other(0, "a")
+		other(1, "o")
+	}
+	f.Glyphs["p"] = &type1.Glyph{WidthX: 100, WidthY: c.WidthY, Cmds: c.Cmds}
+	if c.Others {
+		other(2, "q")
+		other(3, "z")
+	}
 	var buf bytes.Buffer
 	if err := f.Write(&buf, &type1.WriterOptions{Format: type1.FormatNoEExec}); err != nil {
 		return "write fails: " + err.Error()
@@ -450,7 +473,7 @@ func TestP3Drift(t *testing.T) {
 	rec := ev.New("C20", "drift")
 	defer rec.Finish(t)
 	maxSegs := ev.Total(2000, 10000)
-	rec.Rule(fmt.Sprintf("paths of 1..%d segments (random walk with fractional steps of 1-3 decimals, k/q, or tiny steps of 0.0005-0.5 units incl. steps of exactly 0 in one axis; a third of the paths starts 5,000-200,000 units from the origin; moves, h/v/general lines, rrcurveto/hvcurveto/vhcurveto shapes, closepaths); every absolute coordinate decoded by the independent decoder (no string-length limit) and, when the charstring is <= 65,000 bytes, by type1.Read must stay within 1/214 (+2e-6 for the encoder's axis snapping) of the requested coordinate, whatever the path length. Non-trivial: path of >= 100 segments with non-integer coordinates; distinct by path.", maxSegs))
+	rec.Rule(fmt.Sprintf("paths of 1..%d segments (random walk with fractional steps of 1-3 decimals, k/q, or tiny steps of 0.0005-0.5 units incl. steps of exactly 0 in one axis; a third of the paths starts 5,000-200,000 units from the origin; the glyph has a vertical advance (sbw) in two of five cases and stands among other glyphs whose outlines end far from the origin in half of them; moves, h/v/general lines, rrcurveto/hvcurveto/vhcurveto shapes, closepaths); every absolute coordinate decoded by the independent decoder (no string-length limit) and, when the charstring is <= 65,000 bytes, by type1.Read must stay within 1/214 (+2e-6 for the encoder's axis snapping) of the requested coordinate, whatever the path length. Non-trivial: path of >= 100 segments with non-integer coordinates; distinct by path.", maxSegs))
 	ev.SetupRapid(1500, 48000)
 	rapid.Check(t, func(t *rapid.T) {
 		n := rapid.IntRange(1, maxSegs).Draw(t, "segments")
@@ -523,6 +546,8 @@ func TestP3Drift(t *testing.T) {
 		}
 		g.ClosePath()
 		c := &pathCase{Cmds: g.Cmds}
+		c.WidthY = rapid.SampledFrom([]float64{0, 0, 0, 50, -700}).Draw(t, "widthy")
+		c.Others = rapid.Bool().Draw(t, "others")
 		rec.Eval(1)
 		if n >= 100 {
 			rec.NonTrivialHash(seed ^ uint64(n)<<48 ^ uint64(mode))
